@@ -39,7 +39,8 @@ def make(sid, specs, allsym=16, timeout=240, full=0):
         if ok:
             return True, info
         env = {"n": len(specs), "lengths": [s.length for s in specs], "names": [s.name for s in specs],
-               "listed": len(got) if got is not None else -1, "empty_index": ([s.length for s in specs] + [0]).index(0)}
+               "listed": len(got) if got is not None else -1, "empty_index": ([s.length for s in specs] + [0]).index(0),
+               "kind": None, "stage": None}
         return ctx.known(PID, {"part": "roundtrip"}, env), info
     return Ob("C06:rt:" + sid, body, timeout=timeout, tags={"part": "roundtrip"}, text=" + ".join(s.text() for s in specs))
 
@@ -62,7 +63,7 @@ def make_foreign(sid, specs, leader, blank, gaps, chunk=255, allsym=16, timeout=
         if ok:
             return True, info
         env = {"n": len(specs), "lengths": [s.length for s in specs], "listed": len(got) if got is not None else -1,
-               "leader": leader, "gaps": gaps, "empty_index": ([s.length for s in specs] + [0]).index(0)}
+               "leader": leader, "gaps": gaps, "empty_index": ([s.length for s in specs] + [0]).index(0), "kind": None, "stage": None}
         return ctx.known(PID, {"part": "foreign"}, env), info
     return Ob("C06:foreign:" + sid, body, timeout=timeout, tags={"part": "foreign"},
               text="foreign leader=%d blank=%d gaps=%s chunk=%d: %s" % (leader, blank, gaps, chunk, " + ".join(s.text() for s in specs)))
